@@ -13,6 +13,7 @@ static inline bool is_system_message(const char *topic);
 static int tell_if(void *data, const char *key, void *value);
 static ps_priv_t *alloc_ps_msg(const ps_priv_t *msg, ev_src_t *sub);
 static void ps_msg_dtor(void *data);
+static void ps_data_dtor(void *data);
 static void tell_subscribers(void *data, void *value);
 static int tell_pubsub_msg(ps_priv_t *m, const m_mod_t *recipient, m_ctx_t *c);
 static int send_msg(m_mod_t *mod, const m_mod_t *recipient, const char *topic, 
@@ -86,6 +87,7 @@ static ps_priv_t *alloc_ps_msg(const ps_priv_t *msg, ev_src_t *sub) {
     if (m) {
         memcpy(m, msg, sizeof(ps_priv_t));
         m->msg.sender = m_mem_ref((void *)m->msg.sender); // keep module alive until message is dispatched
+        m->autofree = m_mem_ref(m->autofree); // keep autofree data alive until every recipient is done with it
         m->sub = sub;
     }
     return m;
@@ -94,12 +96,15 @@ static ps_priv_t *alloc_ps_msg(const ps_priv_t *msg, ev_src_t *sub) {
 static void ps_msg_dtor(void *data) {
     ps_priv_t *pubsub_msg = (ps_priv_t *)data;
     
-    if (pubsub_msg->flags & M_PS_AUTOFREE) {
-        memhook._free((void *)pubsub_msg->msg.data);
-    }
+    /* Autofree data is released together with the last copy of the message */
+    m_mem_unref(pubsub_msg->autofree);
     if (pubsub_msg->msg.sender) {
         m_mem_unref((void *)pubsub_msg->msg.sender);
     }
+}
+
+static void ps_data_dtor(void *data) {
+    memhook._free(*(void **)data);
 }
 
 static void tell_subscribers(void *data, void *value) {
@@ -135,8 +140,18 @@ static int send_msg(m_mod_t *mod, const m_mod_t *recipient, const char *topic,
     M_PARAM_ASSERT(message);
 
     mod->stats.sent_msgs++;
-    ps_priv_t m = { { false, mod, topic, message }, flags, NULL };
-    return tell_pubsub_msg(&m, recipient, mod->ctx);
+    ps_priv_t m = { { false, mod, topic, message }, flags, NULL, NULL };
+    if (flags & M_PS_AUTOFREE) {
+        /* Data is owned by a ref'd holder: each recipient's copy of the message takes a reference */
+        void **holder = m_mem_new(sizeof(void *), ps_data_dtor);
+        M_ALLOC_ASSERT(holder);
+        *holder = (void *)message;
+        m.autofree = holder;
+    }
+    int ret = tell_pubsub_msg(&m, recipient, mod->ctx);
+    /* Drop our reference: data is freed once the last recipient (if any) is done with it */
+    m_mem_unref(m.autofree);
+    return ret;
 }
 
 /** Private API **/
@@ -146,7 +161,7 @@ int tell_system_pubsub_msg(const m_mod_t *recipient, m_ctx_t *c, m_mod_t *sender
         // A module sent a M_PS_MOD_POISONPILL message to another, or it was stopped
         sender->stats.sent_msgs++;
     }
-    ps_priv_t m = { { true, sender, topic, NULL }, 0, NULL };
+    ps_priv_t m = { { true, sender, topic, NULL }, 0, NULL, NULL };
     return tell_pubsub_msg(&m, recipient, c);
 }
 
